@@ -385,3 +385,58 @@ def resolve_promoted(ctx, t):
     return t
 
 
+
+
+# ------------------------------------------------------------ string splitting
+
+SPLIT_APIS = {
+    # api name -> (searches from, bounded)
+    "splitn": "first", "split_once": "first", "find": "first", "split": "all",
+    "rsplitn": "last", "rsplit_once": "last", "rfind": "last", "rsplit": "all-rev",
+    "split_terminator": "all", "split_whitespace": "all",
+}
+
+
+def _api_name(t):
+    return mir.norm_path(t[1]).split("::")[-1]
+
+
+def split_part(term):
+    """Recognise `one part of a string split`.  Returns dict(api, subject, n, sep, index, split) or None.
+       idioms: index(collect(S.splitn(n, sep)), i) ; S.split_once(sep)?.i ; same for rsplitn / rsplit_once."""
+    t = strip_refs(term)
+    # Vec index idiom
+    if is_call(t, "ops::Index>::index", "Index<usize>>::index"):
+        a = call_args(t)
+        vec, idx = strip_refs(a[0]), const_int(a[1])
+        if is_call(vec, "::collect"):
+            src = strip_refs(call_args(vec)[0])
+            if is_call(src) and "str>::" in mir.norm_path(src[1]) or is_call(src, "str>::splitn", "str>::rsplitn", "str>::split", "str>::rsplit"):
+                api = _api_name(src)
+                if api in ("splitn", "rsplitn"):
+                    sa = call_args(src)
+                    return dict(api=api, subject=strip_refs(sa[0]), n=const_int(sa[1]), sep=const_char(sa[2]) or const_str(sa[2]), index=idx, split=src, vec=vec)
+                if api in ("split", "rsplit"):
+                    sa = call_args(src)
+                    return dict(api=api, subject=strip_refs(sa[0]), n=None, sep=const_char(sa[1]) or const_str(sa[1]), index=idx, split=src, vec=vec)
+        return None
+    # tuple-of-Option idiom
+    if isinstance(t, tuple) and t[0] == "field" and isinstance(t[1], tuple) and t[1][0] == "field" and t[1][2] == 0 \
+            and isinstance(t[1][1], tuple) and t[1][1][0] == "downcast" and t[1][1][2] == "Some":
+        src = strip_refs(t[1][1][1])
+        if is_call(src, "str>::split_once", "str>::rsplit_once"):
+            sa = call_args(src)
+            return dict(api=_api_name(src), subject=strip_refs(sa[0]), n=None, sep=const_char(sa[1]) or const_str(sa[1]), index=t[2], split=src, vec=None)
+    return None
+
+
+def part_role(sp):
+    """'prefix' or 'suffix' of the subject for a two-way split part"""
+    api, i = sp["api"], sp["index"]
+    if api in ("splitn", "split_once"):
+        return "prefix" if i == 0 else "suffix"
+    if api == "rsplit_once":
+        return "prefix" if i == 0 else "suffix"
+    if api == "rsplitn":
+        return "suffix" if i == 0 else "prefix"
+    return None
